@@ -36,11 +36,20 @@ RULE = ("all interleavings of 2 logical threads (1-3 operations each; thorough a
         "4 operations in total complete, 2 operations each sampled; thorough: 2 operations each complete) at the "
         "gate points, 2-5 threads with 1-4 operations each sampled, "
         "entities with distinct keys / threads of one entity, mixed and refused algorithms, sign and verify "
-        "operations, plus truncated / over-long / out-of-range schedules; non-trivial = some thread's "
-        "get_signer and its sign/verify are separated by another thread's action (model class interleaved|race)")
+        "operations, plus truncated / over-long / out-of-range schedules; stream 'pool': 2-4 requests of 2-3 entities "
+        "in every arrival order served by pools of 1, 2, 3 OS threads (several logical threads on ONE OS thread), "
+        "sequential and interleaved between workers; stream 'preempt': single preemption at STATEMENT granularity -- "
+        "thread 0 held before its k-th executed line inside saml2.sigver/pack/entity (sys.settrace line events), all "
+        "other threads run their whole programs, thread 0 resumes; every k; non-trivial = some thread's "
+        "get_signer and its sign/verify are separated by another thread's action (model class interleaved|race), "
+        "or an OS thread serves several logical threads, or the preemption point was reached")
 TRUSTED = [
-    "gate scheduler of harness/props/c20.py: serialises the logical threads at get_signer/sign/verify; "
-    "preemption INSIDE one of those calls and inside the code between two gates is not explored",
+    "gate scheduler of harness/props/c20.py: serialises the logical threads at get_signer/sign/verify (all "
+    "interleavings at call boundaries); in addition ONE preemption between any two statements of the library's "
+    "Python code in saml2.sigver/pack/entity (line events) with the other threads run to completion there; not "
+    "explored: two or more statement-level preemptions in one run, preemption inside a C call / inside other modules",
+    "logical thread = the caller (entity operation sequence) of the Lean model; which OS thread carries it out "
+    "(own thread, or a pool worker shared with other logical threads) is a harness parameter the model ignores",
     "signature verification of the produced URL by the harness (cryptography RSA PKCS#1 v1.5 over the URL's own "
     "SAMLRequest/SAMLResponse, RelayState, SigAlg octets)",
     "ideal-crypto reading of RSA/SHA: a signature verifies only under the key pair, digest and octets it was made with",
@@ -125,7 +134,8 @@ def _gate(kind):
     ctx = getattr(_tls, "ctx", None)
     if ctx is not None:
         ctx.n += 1
-        ctx.sched.arrive(ctx.t, kind)
+        if ctx.sched is not None:
+            ctx.sched.arrive(ctx.t, kind)
 
 
 def _install_gates():
@@ -264,9 +274,17 @@ class HarnessTimeout(RuntimeError):
 
 
 class _Sched:
-    def __init__(self, n):
+    """Logical threads (the callers the model talks about) are served by OS worker threads: `workers[t]` is the OS
+    thread that carries out logical thread t; a worker serves its logical threads one after the other in
+    increasing t.  Default: every logical thread has an OS thread of its own."""
+
+    def __init__(self, n, workers):
         self.cv = threading.Condition()
-        self.state = ["new"] * n  # new | running | waiting | done
+        self.workers = workers
+        self.members = {}
+        for t, w in enumerate(workers):
+            self.members.setdefault(w, []).append(t)
+        self.state = ["queued"] * n  # queued | running | waiting | done
         self.point = [None] * n
         self.go = [False] * n
         self.abort = False
@@ -287,24 +305,32 @@ class _Sched:
                     raise _Abort()
             self.go[t] = False
 
-    def finished(self, t):
+    def finished(self, t, whole_worker=False):
+        """logical thread t is done; its worker goes on with its next logical thread (or stops)"""
         with self.cv:
             self.state[t] = "done"
+            later = [u for u in self.members[self.workers[t]] if u > t]
+            if whole_worker:
+                for u in later:
+                    self.state[u] = "done"
+            elif later:
+                self.state[later[0]] = "running"
             self.cv.notify_all()
 
     # --- controller side (cv held)
-    def _await(self, t):
-        while self.state[t] in ("new", "running"):
+    def _await(self, w):
+        """until worker w stands at a gate or has nothing left to do"""
+        while any(self.state[u] == "running" for u in self.members[w]):
             if self.abort or not self.cv.wait(TIMEOUT):
                 self.abort = True
                 self.cv.notify_all()
-                raise HarnessTimeout("logical thread %d did not reach a gate" % t)
+                raise HarnessTimeout("OS worker %d did not reach a gate" % w)
 
-    def start(self, t, thread):
+    def start(self, w, thread):
         with self.cv:
-            self.state[t] = "running"
+            self.state[self.members[w][0]] = "running"
             thread.start()
-            self._await(t)
+            self._await(w)
 
     def grant(self, t):
         with self.cv:
@@ -314,12 +340,8 @@ class _Sched:
             self.state[t] = "running"
             self.go[t] = True
             self.cv.notify_all()
-            self._await(t)
+            self._await(self.workers[t])
             return True
-
-    def waiting(self, t):
-        with self.cv:
-            return self.state[t] == "waiting"
 
     def abandon(self):
         with self.cv:
@@ -368,25 +390,35 @@ def _do_op(op, ent, universe):
     raise ValueError("unknown op %r" % (op,))
 
 
-def _thread_main(sched, t, th, universe, events, errors):
-    ctx = _Ctx(sched, t)
-    _tls.ctx = ctx
-    try:
-        ent = entity(th["key"])
-        for op in th["prog"]:
-            ctx.n = 0
-            ev = _do_op(op, ent, universe)
-            if ctx.n == 0:
-                sched.arrive(t, "P")  # the operation ended without touching the signing state: one idle slot
-            ev["t"] = t
-            events.append(ev)
-    except _Abort:
-        pass
-    except BaseException:
-        errors.append(traceback.format_exc())
-    finally:
-        _tls.ctx = None
-        sched.finished(t)
+def _run_program(ctx, t, th, universe, events):
+    ent = entity(th["key"])
+    for op in th["prog"]:
+        ctx.n = 0
+        ev = _do_op(op, ent, universe)
+        if ctx.n == 0 and ctx.sched is not None:
+            ctx.sched.arrive(t, "P")  # the operation ended without touching the signing state: one idle slot
+        ev["t"] = t
+        events.append(ev)
+
+
+def _worker_main(sched, w, threads, universe, events, errors):
+    """one OS thread: carries out the logical threads assigned to it, one after the other"""
+    for t in sched.members[w]:
+        ctx = _Ctx(sched, t)
+        _tls.ctx = ctx
+        stop = False
+        try:
+            _run_program(ctx, t, threads[t], universe, events)
+        except _Abort:
+            stop = True
+        except BaseException:
+            errors.append(traceback.format_exc())
+            stop = True
+        finally:
+            _tls.ctx = None
+            sched.finished(t, whole_worker=stop)
+        if stop:
+            return
 
 
 def run_impl(case):
@@ -425,10 +457,14 @@ def run_impl(case):
     return out["ok"]
 
 
-def _run_case(case):
+def _tables_out():
     import saml2.sigver as sv
     from saml2 import pack
 
+    return {"allowed": [long for _short, long in pack.SIG_ALLOWED_ALG], "signer_algs": list(sv.SIGNER_ALGS)}
+
+
+def _prepare(case):
     threads = case["threads"]
     universe = [th["key"] for th in threads] + list(case.get("extra_keys") or [])
     for th in threads:  # fixtures and entities are prepared outside the scheduled run
@@ -436,31 +472,135 @@ def _run_case(case):
         for op in th["prog"]:
             if op["op"] == "verify":
                 fixture(op)
+    return threads, universe
+
+
+def _run_case(case):
+    if case.get("preempt") is not None:
+        return _run_preempt(case)
+    threads, universe = _prepare(case)
     n = len(threads)
-    sched = _Sched(n)
+    workers = case.get("workers")
+    if workers is None:
+        workers = list(range(n))
+    if len(workers) != n or not all(isinstance(w, int) and w >= 0 for w in workers):
+        raise ValueError("workers must give one OS worker number per logical thread")
+    sched = _Sched(n, workers)
     events, errors = [], []
-    ths = [threading.Thread(target=_thread_main, args=(sched, t, threads[t], universe, events, errors),
-                            name="c20-logical-%d" % t, daemon=True) for t in range(n)]
+    wids = sorted(sched.members)
+    ths = {w: threading.Thread(target=_worker_main, args=(sched, w, threads, universe, events, errors),
+                               name="c20-worker-%d" % w, daemon=True) for w in wids}
     try:
-        for t in range(n):
-            sched.start(t, ths[t])  # runs up to its first gate
+        for w in wids:
+            sched.start(w, ths[w])  # runs up to its first gate
         for slot in case.get("schedule") or []:
             if isinstance(slot, int) and 0 <= slot < n:
                 sched.grant(slot)
-        for t in range(n):  # completion: thread 0 to its end, then thread 1, ...
-            while sched.grant(t):
-                pass
+        progress = True
+        while progress:  # completion: thread 0 to its end, then thread 1, ...
+            progress = False
+            for t in range(n):
+                while sched.grant(t):
+                    progress = True
     finally:
         sched.abandon()
-        for th in ths:
+        for th in ths.values():
             if th.ident is not None:
                 th.join(TIMEOUT)
     if errors:
         raise RuntimeError("logical thread failed:\n" + errors[0])
-    if any(th.is_alive() for th in ths):
-        raise HarnessTimeout("logical thread still alive")
-    return {"allowed": [long for _short, long in pack.SIG_ALLOWED_ALG], "signer_algs": list(sv.SIGNER_ALGS),
-            "trace": sched.trace, "events": events}
+    if any(th.is_alive() for th in ths.values()):
+        raise HarnessTimeout("OS worker still alive")
+    out = _tables_out()
+    out.update({"trace": sched.trace, "events": events})
+    return out
+
+
+# ---- second stream: one preemption at statement granularity
+
+
+def _watched_files():
+    import saml2
+
+    d = os.path.dirname(os.path.abspath(saml2.__file__))
+    return tuple(os.path.join(d, f) for f in ("sigver.py", "pack.py", "entity.py"))
+
+
+def _run_preempt(case):
+    """Logical thread 0 runs its program under sys.settrace; immediately before the k-th line it executes inside
+    frames of saml2.sigver / saml2.pack / saml2.entity (k counted from 0 over its whole program) it is held, every
+    other logical thread runs its WHOLE program (own OS thread each, thread 1 first), then thread 0 goes on.
+    No call-boundary gates in this stream.  k beyond the last line: the others run after thread 0 has finished."""
+    import sys
+
+    threads, universe = _prepare(case)
+    k = case["preempt"]["k"]
+    watched = _watched_files()
+    events, errors = [], []
+    state = {"lines": 0, "held": False}
+
+    def others():
+        for t in range(1, len(threads)):
+            def body(t=t):
+                ctx = _Ctx(None, t)
+                _tls.ctx = ctx
+                try:
+                    _run_program(ctx, t, threads[t], universe, events)
+                except BaseException:
+                    errors.append(traceback.format_exc())
+                finally:
+                    _tls.ctx = None
+
+            th = threading.Thread(target=body, name="c20-preempting-%d" % t, daemon=True)
+            th.start()
+            th.join(TIMEOUT)
+            if th.is_alive():
+                raise HarnessTimeout("preempting thread %d did not finish (blocked by the held thread?)" % t)
+
+    def local(frame, event, arg):
+        if event == "line":
+            if state["lines"] == k and not state["held"]:
+                state["held"] = True
+                sys.settrace(None)
+                try:
+                    others()
+                finally:
+                    sys.settrace(tracer)
+            state["lines"] += 1
+        return local
+
+    def tracer(frame, event, arg):
+        if event == "call" and frame.f_code.co_filename in watched:
+            return local
+        return None
+
+    def first():
+        ctx = _Ctx(None, 0)
+        _tls.ctx = ctx
+        sys.settrace(tracer)
+        try:
+            _run_program(ctx, 0, threads[0], universe, events)
+        except BaseException:
+            errors.append(traceback.format_exc())
+        finally:
+            sys.settrace(None)
+            _tls.ctx = None
+
+    th0 = threading.Thread(target=first, name="c20-held-0", daemon=True)
+    th0.start()
+    th0.join(TIMEOUT * 4)
+    if th0.is_alive():
+        raise HarnessTimeout("held thread did not finish")
+    if not state["held"] and not errors:
+        try:
+            others()
+        except BaseException:
+            errors.append(traceback.format_exc())
+    if errors:
+        raise RuntimeError("logical thread failed:\n" + errors[0])
+    out = _tables_out()
+    out.update({"trace": [], "events": events, "lines": state["lines"], "held": state["held"]})
+    return out
 
 
 # ------------------------------------------------------------------ generator
@@ -678,15 +818,104 @@ def gen_cases(rng, tier):
         yield from full(shapes, rng.choice(["distinct", "pair", "same"]), rng.choice(["same", "mixed"]),
                         limit=60 if thorough else 25)
 
+    # ---- several logical threads (entities) served by the same OS thread
+    yield from pool_cases(rng, g, tables, thorough)
+
+    # ---- one preemption at statement granularity inside the library
+    yield from preempt_cases(rng, g, thorough)
+
+
+def _pool_schedules(rng, base, tables, limit):
+    """schedules a worker pool can produce: a worker serves its logical threads one after the other (increasing
+    thread number), workers interleave freely at the gate points"""
+    workers = base["workers"]
+    seqs = {}
+    for t, th in enumerate(base["threads"]):
+        seqs.setdefault(workers[t], []).extend([t] * sum(slots(op, *tables) for op in th["prog"]))
+    wids = sorted(seqs)
+    counts = [len(seqs[w]) for w in wids]
+
+    def to_logical(ws):
+        pos = [0] * len(wids)
+        out = []
+        for i in ws:
+            out.append(seqs[wids[i]][pos[i]])
+            pos[i] += 1
+        return out
+
+    yield []  # one request after the other
+    if len(wids) < 2:
+        return
+    if n_interleavings(counts) <= limit:
+        for ws in interleavings(counts):
+            yield to_logical(ws)
+    else:
+        for ws in _sample_schedules(rng, counts, limit):
+            yield to_logical(ws)
+
+
+def pool_cases(rng, g, tables, thorough):
+    """2-4 requests of 2-3 entities, every arrival order, served by pools of 1, 2, 3 OS threads (request i by
+    worker i mod pool size): logical thread i = i-th request to arrive"""
+    import itertools
+
+    orders = set()
+    for names in ((0, 1), (0, 1, 2), (0, 1, 2, 0), (0, 1, 0, 1)):
+        orders.update(itertools.permutations(names))
+    for pool in (1, 2, 3):
+        ents = rng.sample(ACTORS, 3)
+        for order in sorted(orders):
+            g.ctr = rng.randrange(0, 400) * 10
+            g.common = rng.choice(GOOD_ALGS)
+            alg_mode = "same" if rng.random() < 0.7 else "mixed"
+            shape = rng.choice(["s", "s", "s", "sv", "vs", "ss"])
+            threads = [{"key": ents[i], "prog": g.program(shape if j == 0 or rng.random() < 0.5 else "s", alg_mode, ents[i])}
+                       for j, i in enumerate(order)]
+            base = {"threads": threads, "extra_keys": [e for e in ents if e not in [ents[i] for i in order]],
+                    "workers": [j % pool for j in range(len(order))]}
+            yield from _with_schedules(base, _pool_schedules(rng, base, tables, 120 if thorough else 8))
+
+
+def preempt_cases(rng, g, thorough):
+    """thread 0 held before its k-th library statement while the others run their whole programs: every k"""
+    bases = [(["s", "s"], "distinct", "same"), (["s", "v"], "distinct", "same"), (["vs", "s"], "distinct", "same"),
+             (["s", "s", "s"], "distinct", "same"), (["ss", "s"], "distinct", "mixed"), (["s", "s"], "same", "mixed"),
+             (["sv", "s", "v"], "pair", "same"), (["s", "sv"], "distinct", "same")]
+    if thorough:
+        bases += [(["r" * rng.randint(1, 3) for _ in range(rng.randint(2, 3))], rng.choice(["distinct", "pair"]),
+                   rng.choice(["same", "same", "mixed"])) for _ in range(24)]
+    for shapes, key_mode, alg_mode in bases:
+        base = g.case(shapes, key_mode, alg_mode)
+        base["schedule"] = []
+        probe = dict(base)
+        probe["preempt"] = {"k": -1}
+        lines = run_impl(probe)["lines"]  # statements thread 0 executes inside the watched modules (current code)
+        for k in list(range(lines)) + [lines, lines + 5]:
+            c = dict(base)
+            c["preempt"] = {"k": k}
+            yield c
+
 
 # ------------------------------------------------------------------ verdict helpers
 
 
 def compare(case, impl, model):
-    return bool(model) and impl.get("trace") == model.get("trace") and impl.get("events") == model.get("events")
+    if not model:
+        return False
+    if case.get("preempt") is not None:
+        # the model's answer does not depend on the preemption point: compare per logical thread, no gate trace
+        def proj(evs):
+            return [[e for e in evs if e.get("t") == t] for t in range(len(case["threads"]))]
+
+        return proj(impl.get("events") or []) == proj(model.get("events") or [])
+    return impl.get("trace") == model.get("trace") and impl.get("events") == model.get("events")
 
 
 def nontrivial(case, impl, lean):
+    if case.get("preempt") is not None:
+        return bool(impl.get("held"))
+    if case.get("workers") is not None and len(set(case["workers"])) < len(case["workers"]):
+        return True
     return lean.get("class") in ("interleaved", "race")
 
 
@@ -703,6 +932,8 @@ def _drop_thread(case, i):
     sch = [s - 1 if s > i else s for s in case.get("schedule", []) if s != i]
     c = dict(case)
     c["threads"], c["schedule"] = ths, sch
+    if case.get("workers") is not None:
+        c["workers"] = [w for j, w in enumerate(case["workers"]) if j != i]
     return c
 
 
@@ -769,10 +1000,11 @@ def search_cases(rng, broken, build_log):
 
 
 def distribution(recs):
-    d = {"threads": {}, "class": {}, "branch": {}, "like": {}, "ops": {}, "schedule_len": {}}
+    d = {"stream": {}, "threads": {}, "class": {}, "branch": {}, "like": {}, "ops": {}, "schedule_len": {}}
     for r in recs:
         c, l = r["case"], r["lean"]
-        for k, v in (("threads", str(len(c["threads"]))), ("class", l.get("class")), ("like", l.get("like")),
+        for k, v in (("stream", l.get("stream")), ("threads", str(len(c["threads"]))), ("class", l.get("class")),
+                     ("like", l.get("like")),
                      ("ops", str(sum(len(t["prog"]) for t in c["threads"]))),
                      ("schedule_len", str(min(len(c.get("schedule") or []), 20)))):
             d[k][v] = d[k].get(v, 0) + 1
